@@ -32,6 +32,7 @@ var evilPaths = []string{
 	`github.com/u/r@v1.0.0-rc-1/f.go`, `golang.org/x/net@v0.1.0-alpha-2/h.go`, `github.com/u/r@v2.0.0+incompatible/f.go`, `github.com/u/r@v1.2.3-0.20200223170610-d5e6a3e2c0ae/f.go`,
 	`github.com/u/r@v1-2-3/f.go`, `golang.org/x/sys@-/a.go`, `github.com/u/r@/f.go`, `github.com/u/javascript:alert(2)/x.go`, `github.com/u/r@javascript:alert(3)/x.go`, `github.com/u/r@v1 2/x y.go`, `net/http/server.go`, `runtime/proc.go`,
 	`github.com/user/re?po#x/f.go`, `golang.org/x/ne?t#y/h.go`, `github.com/us?er/repo/f.go`, `github.com/user/repo@v1?x#y/f.go`, `golang.org/x/net@v0?q/h.go`, `github.com/u/r/what?tab=versions/f.go`, `github.com/u/r/a#b/f.go`,
+	`github.com/!burnt!sushi/toml@v0.3.1/x.go`, `github.com/a/b@v1.0.0/sub!/x.go`, `github.com/a!/b/x!.go`, `golang.org/x/net!@v0!/h!`, `!`, `a/!`,
 }
 
 // C17Snap is a JSON-serialisable description of a directly constructed snapshot.
